@@ -8,6 +8,8 @@ NOTE = ("Trusted: z3 5.1 / cvc5 1.0.3 verdicts; the pyvc executor's encoding of 
         "bs4/lxml/cssutils; floats under the standard error model (binary64, round-to-nearest, no overflow); "
         "the bounded parts are run-time contract evaluation, never counted as proof. See evidence/<id>.json.")
 CLAIMED = {
+ "C10": ("frame / object-invariant obligations discharged by a syntactic effect checker over the real ASTs + bounded run-time history and isolation contracts incl. hash seeds",
+         "P-frame: every attribute a reader.read() reads is plain configuration or assigned in that call before its first read (so earlier reads cannot influence it), no mutable default arguments, no module/class-level mutable state, no iteration order from sets, parser helpers built per call; B: every order of two documents on one reader, edits of one result, interleaving across formats, four hash seeds", "3 C10"),
  "C09": ("frame (reads/modifies / object-invariant) obligations discharged by a syntactic effect checker over the real ASTs + bounded run-time snapshot and determinism contracts incl. hash seeds",
          "P-frame: every writer deep-copies its input before any impure use, every attribute a write() reads is configuration or assigned in that call first (so any interleaving of writes on one object behaves like a fresh writer), no iteration order from sets, no module/class-level mutable state; B: snapshots before/after, repeated / fresh / interleaved writes, four hash seeds", "3 C09"),
  "C20": ("contract-based deductive verification over abstract strings (AST->SMT VCs; a string is known only through uninterpreted observations) + exhaustive bounded enumeration of short strings",
